@@ -1,0 +1,25 @@
+//go:build verif
+
+package tensor
+
+import (
+	"github.com/sahandsafizadeh/qeep/tensor/internal/gradtrack"
+	"github.com/sahandsafizadeh/qeep/tensor/internal/tensor"
+)
+
+// Re-exports of the verification hooks (build tag "verif") for harnesses that
+// live outside this module and so cannot import tensor/internal.
+
+type VerifState = gradtrack.VerifState
+
+func VerifSetRuleHook(f func(edge any, target tensor.Tensor)) {
+	gradtrack.VerifSetRuleHook(f)
+}
+
+func VerifGradState(t tensor.Tensor) (s VerifState, ok bool) {
+	if t == nil {
+		return s, false
+	}
+
+	return gradtrack.VerifStateOf(t.GradContext())
+}
